@@ -8,6 +8,9 @@
 import MW.Lemmas.PersistFault
 import MW.Lemmas.PersistCrash
 import MW.Lemmas.LedgerConnect
+import MW.Lemmas.Deepen3Task
+import MW.Lemmas.Deepen3Retry
+import MW.Lemmas.Deepen3Ex
 namespace MW.Props.C18
 open MW MW.Model.Ledger MW.Model.Persist MW.Spec.Persist MW.Lemmas.PersistOp MW.Lemmas.PersistFault MW.Lemmas.PersistCrash
 
@@ -201,6 +204,83 @@ theorem newAddr_no_skipped_or_duplicated_index (env : Env) (nA nB nC : Nat) (stk
     (hs : KsSeq P) : KsSeq ((opNewAddr env nA nB nC stk).run none P V).P :=
   newAddr_ksSeq env nA nB nC stk P V w r c hcur hr hk hs
 
+-- ------------------------------------------------------------------ ROUND 3: import batch and removal iteration
+
+/-- fault_restores_coh for one batch of asyncImport (`Lemmas.Deepen3.opImportStep`: ONE Update whose ledger effect
+    is C07's `Model.Import.importStep`; the expired-mempool map is only updated after the commit): whatever fails
+    — a fault at any call index or an ordinary error of the batch (continuable, revoked, credit not found) — store
+    AND volatile state are exactly what they were -/
+theorem fault_restores_exact_importStep (batch n : Nat) (env : Env) (w : Wid) (f : Option Nat) (P : PStore) (V : PVol)
+    (h : ((Lemmas.Deepen3.opImportStep batch n env w).run f P V).ok = false) :
+    ((Lemmas.Deepen3.opImportStep batch n env w).run f P V).P = P ∧
+    ((Lemmas.Deepen3.opImportStep batch n env w).run f P V).V = V :=
+  Lemmas.Deepen3.importStep_fail_exact batch n env w f P V h
+
+/-- retry_equiv, import batch: after any number of failed attempts the retry IS the fault-free batch (equal `Res`:
+    no transaction of the range recorded twice, none lost, the cursor moved once) -/
+theorem retry_equiv_importStep (batch n : Nat) (env : Env) (w : Wid) (P : PStore) (js : List Nat) (V : PVol)
+    (hf : allFail (Lemmas.Deepen3.opImportStep batch n env w) js P V = true) :
+    (Lemmas.Deepen3.opImportStep batch n env w).run none P (attempts (Lemmas.Deepen3.opImportStep batch n env w) js P V) =
+      (Lemmas.Deepen3.opImportStep batch n env w).run none P V :=
+  Lemmas.Deepen3.importStep_retry batch n env w P js V hf
+
+/-- fault_restores_coh for one iteration of asyncRemove (`Lemmas.Deepen3.opRemoveStep`: ONE Update = C08's
+    `Model.Remove.removeStep` + DeleteKeystore with its cache eviction INSIDE the transaction + the repair
+    UpdateManagedKeystores): the store is unchanged; the volatile state is unchanged too unless the iteration was
+    the finishing one and the fault hit the commit — then the evicted cache entry has been reloaded from the store
+    (`reloaded`: same map, the wallet in use reset) -/
+theorem fault_restores_coh_removeStep (limit nR : Nat) (env : Env) (w : Wid) (addrs : List Addr) (j : Nat) (P : PStore)
+    (V : PVol) (r : KsRec) (hr : AMap.get P.ks w = some r) (hk : AMap.get V.keys w = some r)
+    (h : ((Lemmas.Deepen3.opRemoveStep limit nR env w addrs).run (some j) P V).ok = false) :
+    ((Lemmas.Deepen3.opRemoveStep limit nR env w addrs).run (some j) P V).P = P ∧
+    (((Lemmas.Deepen3.opRemoveStep limit nR env w addrs).run (some j) P V).V = V ∨
+     (∃ o, Model.Remove.removeStep limit (ctxOf env V) w addrs P.led = some o ∧ o.finish = true ∧
+        ((Lemmas.Deepen3.opRemoveStep limit nR env w addrs).run (some j) P V).V = Lemmas.Deepen3.reloaded V w r)) :=
+  Lemmas.Deepen3.removeStep_fault limit nR env w addrs j P V r hr hk h
+
+/-- retry_equiv, removal iteration: after any number of failed attempts the retry IS the fault-free iteration
+    (equal `Res`): no credit of the wallet deleted twice or skipped, the keystore deleted exactly when the step
+    finishes. Uses that the removal step reads the keystore view only through lookups (`removeStep_ctx_congr`):
+    the reloaded cache entry sits elsewhere in the association list (a Go map has no order) and reads the same
+    (`reload_view`; needs distinct wallet ids and distinct addresses in the cache). -/
+theorem retry_equiv_removeStep (limit nR : Nat) (env : Env) (w : Wid) (addrs : List Addr) (P : PStore)
+    (js : List Nat) (V : PVol) (r : KsRec) (hr : AMap.get P.ks w = some r) (hk : AMap.get V.keys w = some r)
+    (hnw : (walletsOf V.keys).Nodup) (hna : ((ownOf V.keys).map (·.1)).Nodup)
+    (hf : allFail (Lemmas.Deepen3.opRemoveStep limit nR env w addrs) js P V = true) :
+    (Lemmas.Deepen3.opRemoveStep limit nR env w addrs).run none P
+        (attempts (Lemmas.Deepen3.opRemoveStep limit nR env w addrs) js P V) =
+      (Lemmas.Deepen3.opRemoveStep limit nR env w addrs).run none P V :=
+  Lemmas.Deepen3.removeStep_retry limit nR env w addrs P js V r hr hk hnw hna hf
+
+open MW.Lemmas.Deepen3 in
+/-- retry_equiv for the follower's own retry over ANY gap (what `retry_equiv_follower` proves for one missed block
+    with exact equality): the wallet holds the books of the node's chain up to height `h` (`SInv`); the
+    notifications of blocks `h+1 … h+k` failed (fault at any call index: nothing changed — `fault_restores_coh_block`);
+    the notification of block `h+k+1` ALONE succeeds (reorganisation path: nothing disconnected, all `k+1` blocks
+    connected in one batch) and reaches the books of the chain up to it — as does the fault-free sequence of the
+    `k+1` notifications (`notifySeq`); confirmed buckets extensionally equal, same synced-to and tip copy -/
+theorem retry_equiv_follower_gap {st : Static} {G : Block} (E : StaticOK st G) {ks : AMap.T Wid KsRec} {chain : List Block}
+    (hN : Lemmas.Ledger.ChainOK (lenv st ks) G chain) {s0 : Store}
+    (hAR : Lemmas.Ledger.AllReady (ownOf ks) (readyWallets s0 (walletsOf ks)))
+    (hne : (readyWallets s0 (walletsOf ks)).isEmpty = false)
+    (n : Nat) {h : Nat} {P : PStore} {V : PVol} (hS : SInv st ks chain s0 h P V) (k : Nat) (b : Block)
+    (hb : chain[h + (k + 1)]? = some b) :
+    ((opBlock (envAt st chain) n b).run none P V).ok = true ∧
+    SInv st ks chain s0 (h + (k + 1)) ((opBlock (envAt st chain) n b).run none P V).P
+      ((opBlock (envAt st chain) n b).run none P V).V ∧
+    SInv st ks chain s0 (h + (k + 1)) (notifySeq st n chain (List.range' (h + 1) (k + 1)) (P, V)).1
+      (notifySeq st n chain (List.range' (h + 1) (k + 1)) (P, V)).2 ∧
+    AMap.Equiv ((opBlock (envAt st chain) n b).run none P V).P.led.credits
+      (notifySeq st n chain (List.range' (h + 1) (k + 1)) (P, V)).1.led.credits ∧
+    AMap.Equiv ((opBlock (envAt st chain) n b).run none P V).P.led.unspent
+      (notifySeq st n chain (List.range' (h + 1) (k + 1)) (P, V)).1.led.unspent ∧
+    ((opBlock (envAt st chain) n b).run none P V).P.led.syncedTo =
+      (notifySeq st n chain (List.range' (h + 1) (k + 1)) (P, V)).1.led.syncedTo ∧
+    ((opBlock (envAt st chain) n b).run none P V).V.led.best =
+      (notifySeq st n chain (List.range' (h + 1) (k + 1)) (P, V)).2.led.best := by
+  have := follower_retry_gap E hN hAR hne n hS k b hb
+  exact ⟨this.1, this.2.1, this.2.2.1, this.2.2.2.1, this.2.2.2.2.1, this.2.2.2.2.2.2.2.2.2.2.1, this.2.2.2.2.2.2.2.2.2.2.2⟩
+
 -- ------------------------------------------------------------------ non-vacuity
 
 def env0 : Env := {}
@@ -239,5 +319,46 @@ example : bb1.prev = ({} : PVol).led.best.hash ∧ bb1.id ≠ ({} : PVol).led.be
 example : ∀ s1 c1, filterBlock (ctxOf envN {}) ({} : PStore).led (readyWallets ({} : PStore).led (ctxOf envN {}).wallets) bb1 = .ok (s1, c1) →
     readyWallets s1 (ctxOf envN {}).wallets = readyWallets ({} : PStore).led (ctxOf envN {}).wallets := by
   intro s1 c1 _; rfl
+
+
+/-- ROUND 3 — the hypotheses of `retry_equiv_removeStep` are satisfiable and the interesting case is hit: wallet W1
+    flagged for removal, the FINISHING iteration with the commit (call 3) failing evicts and reloads the cache entry
+    and resets the wallet in use; after three failed attempts the retry finishes the removal -/
+def P2 : PStore := ((opRemoveMark 1 "W1").run none P1 V1).P
+def V2 : PVol := ((opRemoveMark 1 "W1").run none P1 V1).V
+example : AMap.get P2.ks "W1" = some {} ∧ AMap.get V2.keys "W1" = some {} ∧ V2.cur = some "W1" ∧
+    (walletsOf V2.keys).Nodup ∧ ((ownOf V2.keys).map (·.1)).Nodup := by decide
+example : allFail (Lemmas.Deepen3.opRemoveStep 10 2 env0 "W1" []) [3, 0, 3] P2 V2 = true := by decide
+example : ((Lemmas.Deepen3.opRemoveStep 10 2 env0 "W1" []).run (some 3) P2 V2).V.cur = none ∧
+    ((Lemmas.Deepen3.opRemoveStep 10 2 env0 "W1" []).run (some 3) P2 V2).V.keys = [("W1", {})] ∧
+    ((Lemmas.Deepen3.opRemoveStep 10 2 env0 "W1" []).run (some 3) P2 V2).P.ks = [("W1", {})] := by decide
+example : ((Lemmas.Deepen3.opRemoveStep 10 2 env0 "W1" []).run none P2 V2).ok = true ∧
+    ((Lemmas.Deepen3.opRemoveStep 10 2 env0 "W1" []).run none P2 V2).P.ks = [] ∧
+    ((Lemmas.Deepen3.opRemoveStep 10 2 env0 "W1" []).run none P2 V2).P.led.status = [] ∧
+    ((Lemmas.Deepen3.opRemoveStep 10 2 env0 "W1" []).run none P2 V2).V.keys = [] := by decide
+
+/-- … and of `retry_equiv_importStep`: an importing wallet (cursor 0) on the chain G ← B1 ← B2, follower at B2;
+    faults at BeginTx, inside the batch and at the commit; the retry makes the wallet ready -/
+def P3 : PStore :=
+  { led := { sync := [(2, "B2"), (1, "B1"), (0, "G")], syncedTo := 2, status := [("W9", ⟨some 0, false⟩)],
+             balance := [("W9", 0)] },
+    ks := [("W9", { next := 1, addrs := [(0, "a9")] })] }
+def V3 : PVol := { led := { best := ⟨2, "B2"⟩ }, keys := P3.ks }
+example : allFail (Lemmas.Deepen3.opImportStep 1000 2 envN "W9") [0, 2, 3] P3 V3 = true := by decide
+example : ((Lemmas.Deepen3.opImportStep 1000 2 envN "W9").run none P3 V3).ok = true ∧
+    ((Lemmas.Deepen3.opImportStep 1000 2 envN "W9").run none P3 V3).P.led.status = [("W9", ⟨none, false⟩)] := by decide
+
+
+/-- ROUND 3 — the hypotheses of `retry_equiv_follower_gap` are satisfiable: wallet w1 at genesis of G–b1–d2 (books of
+    `chain.take 1`), the notification of b1 was lost, the notification of d2 alone connects b1 and d2 -/
+theorem gapSInv : Lemmas.Deepen3.SInv Lemmas.Deepen3.exSt Lemmas.Deepen3.exKs0
+    [Lemmas.Ledger.hxG, Lemmas.Ledger.hxB1, Lemmas.Ledger.ixD2] Lemmas.Ledger.obS0 0 Lemmas.Deepen3.exX0.P
+    Lemmas.Deepen3.exX0.V :=
+  ⟨rfl, rfl, (Lemmas.Ledger.inv_env_chain (Lemmas.Deepen3.lenv Lemmas.Deepen3.exSt Lemmas.Deepen3.exKs0) _ _).1 Lemmas.Deepen3.exInv0, rfl, by decide, fun _ => rfl⟩
+example : ((opBlock (Lemmas.Deepen3.envAt Lemmas.Deepen3.exSt [Lemmas.Ledger.hxG, Lemmas.Ledger.hxB1, Lemmas.Ledger.ixD2]) 1
+    Lemmas.Ledger.ixD2).run none Lemmas.Deepen3.exX0.P Lemmas.Deepen3.exX0.V).ok = true :=
+  (retry_equiv_follower_gap Lemmas.Deepen3.exStaticOK
+    (Lemmas.Deepen3.exOK Lemmas.Deepen3.exKs0 Lemmas.Ledger.ixD2 (Or.inl rfl) Lemmas.Deepen3.exValid0)
+    Lemmas.Deepen3.exAllReady0 (by decide) 1 gapSInv 1 Lemmas.Ledger.ixD2 rfl).1
 
 end MW.Props.C18
